@@ -636,3 +636,66 @@ fn u8_comparisons_same_allocation_partial_eq() {
     kani::assert(a.partial_cmp(&a2) == x.partial_cmp(&x), "U8.partial_cmp.same_allocation_still_compares_values");
     core::mem::forget((a, a2));
 }
+
+/// second cross-check scenario: the consuming API (get_mut, make_mut's three branches, try_unwrap) on
+/// cactusref and on the real std::rc, with a second strong handle and/or a Weak present or not
+macro_rules! scenario2 {
+    ($name:ident, $rc:ident) => {
+        fn $name(choice: [bool; 2], v: u8) -> [usize; 10] {
+            let mut o = [0usize; 10];
+            let mut a = $rc::new(v);
+            let b = if choice[0] { Some($rc::clone(&a)) } else { None };
+            let w = if choice[1] { Some($rc::downgrade(&a)) } else { None };
+            o[0] = $rc::get_mut(&mut a).is_some() as usize;
+            o[1] = *$rc::make_mut(&mut a) as usize;
+            o[2] = $rc::strong_count(&a);
+            o[3] = $rc::weak_count(&a);
+            o[4] = match &b {
+                Some(b) => $rc::strong_count(b) * 10 + $rc::ptr_eq(b, &a) as usize,
+                None => 99,
+            };
+            o[5] = match &w {
+                Some(w) => w.strong_count() * 10 + w.weak_count(),
+                None => 99,
+            };
+            let r = $rc::try_unwrap(a);
+            o[6] = match &r {
+                Ok(x) => 100 + *x as usize,
+                Err(_) => 0,
+            };
+            o[7] = match &w {
+                Some(w) => w.strong_count() * 10 + w.weak_count(),
+                None => 99,
+            };
+            drop(r);
+            drop(b);
+            o[8] = match &w {
+                Some(w) => w.strong_count() * 10 + w.weak_count(),
+                None => 99,
+            };
+            drop(w);
+            o
+        }
+    };
+}
+scenario2!(scenario2_std, StdRc);
+scenario2!(scenario2_cactus, CRc);
+
+#[kani::proof]
+#[kani::unwind(12)]
+#[kani::stub(crate::drop::drop_unreachable_with_adoptions, stub_dua)]
+#[kani::stub(crate::drop::drop_cycle, stub_dc)]
+#[kani::stub(crate::rc::Rc::orphaned_cycle, stub_oc)]
+#[kani::stub(crate::drop::drop_unreachable, stub_du_contract)]
+fn u8_std_crosscheck_consuming() {
+    let choice: [bool; 2] = kani::any();
+    let v: u8 = kani::any();
+    let s = scenario2_std(choice, v);
+    let c = scenario2_cactus(choice, v);
+    let mut i = 0;
+    while i < 10 {
+        kani::assert(s[i] == c[i], "U8.std_crosscheck_consuming.every_observation_equals_std");
+        i += 1;
+    }
+    kani::assert(unsafe { GROUP_CALLS } == 0, "U8.std_crosscheck_consuming.no_group_teardown_without_adoptions");
+}
